@@ -288,7 +288,9 @@ def r5(ctx):
     for d in _closure_defs(ctx, fw):
         cb = ctx.ibody(d)
         snd = "Tx::send(^tx, Into::into($1))"
-        if common.case_table(cb) == {"(%s is Err)" % snd: ["Option::None{}"], "(%s is Ok)" % snd: ["Option::Some{0: %s.as:Ok.0}" % snd]} and \
+        # (the Ok payload of `send` is `()`: `Some(send_result_payload)` and `Some(())` are the same value)
+        if common.case_table(cb) in ({"(%s is Err)" % snd: ["Option::None{}"], "(%s is Ok)" % snd: ["Option::Some{0: %s.as:Ok.0}" % snd]},
+                                     {"(%s is Err)" % snd: ["Option::None{}"], "(%s is Ok)" % snd: ["Option::Some{0: tuple{}}"]}) and \
                 [render(tm) for bi, t, tm in cb.real_calls() if cb.guard(bi) == frozenset([frozenset()])] == ["Into::into($1)", snd]:
             cbok = True
     ctx.check("forward_to", ok and cbok, "forwards every item, in order, until the receiver is gone", got=r[:200], key="forward")
